@@ -82,7 +82,8 @@ func (f *FieldCopyToGenerator) errAttrConversionFailure(path string, typ string)
 
 // Generate generates CopyTo fragment for a field of different kind
 func (f *FieldCopyToGenerator) Generate() *j.Statement {
-	if f.ParentIsOptionalEmbed && f.Kind != PrimitiveKind {
+	// (a oneof branch reads the oneof holder through the embedded parent as well)
+	if f.ParentIsOptionalEmbed && (f.Kind != PrimitiveKind || f.OneOfName != "") {
 		return j.Block(f.genOptionalEmbedStub(), f.generate())
 	}
 
@@ -169,7 +170,7 @@ func (f *FieldCopyToGenerator) genZeroValue(fieldName string) func(*j.Group) {
 		}
 
 		// v.Null = v.Value == ""
-		if f.ZeroValue != "" && f.ParentIsOptionalEmbed {
+		if f.ZeroValue != "" && f.ParentIsOptionalEmbed && f.OneOfName == "" {
 			// The field can only be read when the embedded parent is not nil (it is rendered as null otherwise)
 			g.If(j.Id("obj." + f.ParentIsOptionalEmbedFieldName).Op("!=").Nil()).Block(
 				j.Id("v.Null").Op("=").Id(f.i.WithType(f.ValueCastToType)).Parens(j.Id(fieldName)).Op("==").Id(f.ZeroValue),
@@ -192,7 +193,7 @@ func (f *FieldCopyToGenerator) genPrimitiveBody(fieldName string, g *j.Group) {
 	g.If(j.Id("!ok")).BlockFunc(f.genZeroValue(fieldName))
 
 	if !f.IsPlaceholder {
-		if f.ParentIsOptionalEmbed {
+		if f.ParentIsOptionalEmbed && f.OneOfName == "" {
 			g.If(j.Id("obj." + f.ParentIsOptionalEmbedFieldName).Op("==").Nil()).Block(
 				j.Id("v.Null").Op("=").True(),
 			).Else().Block(f.genAssignValue(fieldName))
